@@ -4,13 +4,13 @@ use crate::props::common::digest_of;
 use crate::util::{self, clock};
 use sentinel_core::base::ConcurrencyStat;
 use sentinel_core::{isolation, stat};
-use sentinel_tower::{BoxError, SentinelService, ServiceRole};
+use sentinel_tower::{BoxError, SentinelLayer, SentinelService, ServiceRole};
 use serde::Serialize;
 use std::future::Future;
 use std::pin::Pin;
 use std::sync::{Arc, Mutex};
 use std::task::{Context, Poll, Waker};
-use tower::Service;
+use tower::{Layer, Service};
 
 pub struct C20;
 
@@ -24,7 +24,8 @@ pub enum Outcome {
 
 #[derive(Debug, Clone, Serialize)]
 pub enum Op {
-    Call(Outcome),
+    /// outcome of the inner service, index of the resource the request is for
+    Call(Outcome, usize),
     Poll(usize),
     Drop(usize),
 }
@@ -36,6 +37,15 @@ pub struct Case {
     pub fallback: bool,
     pub allow_drop: bool,
     pub ops: Vec<Op>,
+    /// built through SentinelLayer::layer instead of SentinelService::new
+    pub via_layer: bool,
+    /// isolation threshold of the second resource (0 = it has no rule); requests pick a resource
+    pub threshold2: u32,
+    /// 0 = none; otherwise a flow rule (reject, per second) of this threshold on the first resource: with the clock
+    /// standing still it caps the number of admitted requests of the whole case
+    pub flow_cap: u32,
+    /// the calls go through a clone of the service taken after configuration
+    pub via_clone: bool,
 }
 
 pub fn decode(u: &mut Bytes) -> Case {
@@ -55,14 +65,27 @@ pub fn decode(u: &mut Bytes) -> Case {
                 4 => Outcome::PendingErr(1 + u.choice(3) as u8),
                 _ => Outcome::PendingErr(1),
             };
-            ops.push(Op::Call(o));
+            ops.push(Op::Call(o, 0));
         } else if k == 9 && allow_drop {
             ops.push(Op::Drop(u.choice(6)));
         } else {
             ops.push(Op::Poll(u.choice(6)));
         }
     }
-    Case { threshold, server_role, fallback, allow_drop, ops }
+    // fields added later are drawn from the tail so that committed replays keep their meaning
+    let via_layer = u.tail_u8() >= 128;
+    let two = u.tail_u8() >= 128;
+    let threshold2 = u.tail_choice(4) as u32;
+    let flow_cap = [0u32, 0, 0, 2, 3, 5, 8][u.tail_choice(7)];
+    let via_clone = u.tail_u8() >= 192;
+    if two {
+        for op in ops.iter_mut() {
+            if let Op::Call(_, r) = op {
+                *r = u.tail_choice(2);
+            }
+        }
+    }
+    Case { threshold, server_role, fallback, allow_drop, ops, via_layer, threshold2, flow_cap, via_clone }
 }
 
 #[derive(Debug)]
@@ -135,12 +158,14 @@ fn extractor(r: &Request) -> String {
     r.res.clone()
 }
 
-fn fallback(_r: &Request, _e: sentinel_core::Error) -> Result<u32, BoxError> {
-    Ok(FALLBACK_MARK)
+/// the fallback answers with a value that names the request it was given
+fn fallback(r: &Request, _e: sentinel_core::Error) -> Result<u32, BoxError> {
+    Ok(FALLBACK_MARK + r.id)
 }
 
 struct Live {
     id: u32,
+    res: usize,
     admitted: bool,
     outcome: Outcome,
     fut: Pin<Box<dyn Future<Output = Result<u32, BoxError>> + Send>>,
@@ -157,7 +182,7 @@ impl Property for C20 {
         }
     }
     fn rule(&self) -> String {
-        "bytes -> SentinelService (Server or Client role, with or without fallback) over a scripted inner service, an isolation rule (threshold 1..3) on the extracted resource, 2-29 operations call(outcome in ready Ok / ready Err / pending x j then Ok / pending x j then Err) and poll(any live future, once, no-op waker), so several requests are in flight and complete in a generated order; InFlightModel: admitted <=> in-flight + 1 <= T at call(), inner call count +1 iff admitted, rejected => fallback response or Err, after a future resolves (Ok or Err) the resource's (and for Server role the inbound node's) in-flight count is back and the next request is admitted accordingly; futures dropped before completion are generated in a separate class (1/8 of cases) and only reported; non-trivial = >= 1 inner Err followed by a later request at the cap; distinct = distinct decoded cases".into()
+        "bytes -> SentinelService (Server or Client role, with or without fallback; built by SentinelService::new or by SentinelLayer::layer, optionally cloned) over a scripted inner service; one or two resources chosen per request through the extractor, an isolation rule (threshold 1..3) on the first, an isolation rule or no rule on the second, optionally a flow rule on the first (the clock stands still, so it caps the admissions of the case); 2-29 operations call(outcome in ready Ok / ready Err / pending x j then Ok / pending x j then Err) and poll(any live future, once, no-op waker), so several requests are in flight and complete in a generated order; InFlightModel per resource: admitted <=> Sentinel admits (in-flight + 1 <= T and the flow rule has room) at call(), inner call count +1 iff admitted, rejected => the fallback's answer for that very request or a non-inner Err, an inner Err reaches the caller unchanged, after a future resolves (Ok or Err) the resource's in-flight count is back (the inbound node mirrors Server-role requests and is untouched by Client-role ones), every future resolves, and pass / completion totals equal the admitted requests; futures dropped before completion are generated in a separate class (1/8 of cases) and only reported; non-trivial = >= 1 inner Err followed by a later request at the cap; distinct = distinct decoded cases".into()
     }
     fn assumptions(&self) -> Vec<String> {
         vec![
@@ -191,80 +216,115 @@ impl Property for C20 {
 fn run_case(case: &Case) -> Result<(bool, Vec<&'static str>, u64), (String, String)> {
     util::reset_all();
     clock::new_case_epoch();
-    let res = util::fresh_name("c20");
-    isolation::load_rules(vec![Arc::new(isolation::Rule { resource: res.clone(), threshold: case.threshold, ..Default::default() })]);
+    let names = [util::fresh_name("c20"), util::fresh_name("c20b")];
+    let thresholds = [case.threshold, case.threshold2];
+    let mut rules = vec![Arc::new(isolation::Rule { resource: names[0].clone(), threshold: case.threshold, ..Default::default() })];
+    if case.threshold2 > 0 {
+        rules.push(Arc::new(isolation::Rule { resource: names[1].clone(), threshold: case.threshold2, ..Default::default() }));
+    }
+    isolation::load_rules(rules);
+    if case.flow_cap > 0 {
+        sentinel_core::flow::load_rules(vec![Arc::new(sentinel_core::flow::Rule { resource: names[0].clone(), threshold: case.flow_cap as f64, ..Default::default() })]);
+    }
     let inner_state = Arc::new(Mutex::new(InnerState::default()));
     let inner = Scripted(inner_state.clone());
-    let mut svc: SentinelService<Scripted, Request> =
-        SentinelService::new(inner, if case.server_role { ServiceRole::Server } else { ServiceRole::Client }).with_extractor(extractor);
-    if case.fallback {
-        svc = svc.with_fallback(fallback);
+    let role = if case.server_role { ServiceRole::Server } else { ServiceRole::Client };
+    let mut svc: SentinelService<Scripted, Request> = if case.via_layer {
+        let mut layer: SentinelLayer<Scripted, Request, ()> = SentinelLayer::new(role).with_extractor(extractor);
+        if case.fallback {
+            layer = layer.with_fallback(fallback);
+        }
+        layer.clone().layer(inner)
+    } else {
+        let mut svc = SentinelService::new(inner, role).with_extractor(extractor);
+        if case.fallback {
+            svc = svc.with_fallback(fallback);
+        }
+        svc
+    };
+    if case.via_clone {
+        svc = svc.clone();
     }
     let inbound = stat::inbound_node();
     let inbound_base = inbound.current_concurrency();
     let waker = Waker::noop();
     let mut cx = Context::from_waker(waker);
     let mut live: Vec<Live> = Vec::new();
-    let mut inflight: u32 = 0;
+    let mut inflight = [0u32; 2];
+    let mut admitted_total = [0u32; 2];
     let mut expected_calls: Vec<u32> = Vec::new();
     let mut next_id = 0u32;
     let mut dropped = 0u64;
     let mut judged = true;
-    let (mut inner_err_seen, mut at_cap_after_err, mut n_rej) = (false, false, 0u64);
+    let (mut inner_err_seen, mut at_cap_after_err, mut n_rej, mut n_flow_rej) = (false, false, 0u64, 0u64);
+    let mut used = [false; 2];
 
-    let check_counts = |inflight: u32, judged: bool, what: &str| -> Result<(), (String, String)> {
+    let check_counts = |inflight: &[u32; 2], judged: bool, what: &str| -> Result<(), (String, String)> {
         if !judged {
             return Ok(());
         }
-        let node = stat::get_resource_node(&res);
-        let c = node.map(|n| n.current_concurrency()).unwrap_or(0);
-        if c != inflight {
-            return Err(("admission-not-released".into(), format!("{}: resource in-flight is {} but {} admitted requests are unfinished", what, c, inflight)));
-        }
-        if case.server_role {
-            let ic = inbound.current_concurrency() - inbound_base;
-            if ic != inflight {
-                return Err(("inbound-admission-not-released".into(), format!("{}: inbound in-flight is {} but {} admitted requests are unfinished", what, ic, inflight)));
+        for k in 0..2 {
+            let node = stat::get_resource_node(&names[k]);
+            let c = node.map(|n| n.current_concurrency()).unwrap_or(0);
+            if c != inflight[k] {
+                return Err(("admission-not-released".into(), format!("{}: in-flight of resource {} is {} but {} admitted requests are unfinished", what, k, c, inflight[k])));
             }
+        }
+        let ic = inbound.current_concurrency() as i64 - inbound_base as i64;
+        let want = if case.server_role { (inflight[0] + inflight[1]) as i64 } else { 0 };
+        if ic != want {
+            return Err((
+                if case.server_role { "inbound-admission-not-released".into() } else { "client-role-counted-as-inbound".into() },
+                format!("{}: inbound in-flight changed by {} but {} expected ({} role, {} admitted requests unfinished)", what, ic, want, if case.server_role { "server" } else { "client" }, inflight[0] + inflight[1]),
+            ));
         }
         Ok(())
     };
 
     for (oi, op) in case.ops.iter().enumerate() {
         match op {
-            Op::Call(outcome) => {
+            Op::Call(outcome, r) => {
+                let r = *r;
+                used[r] = true;
                 let id = next_id;
                 next_id += 1;
-                let expect_admit = inflight + 1 <= case.threshold;
-                if inner_err_seen && inflight + 1 >= case.threshold {
+                let iso_ok = thresholds[r] == 0 || inflight[r] + 1 <= thresholds[r];
+                let flow_ok = !(r == 0 && case.flow_cap > 0) || admitted_total[0] + 1 <= case.flow_cap;
+                let expect_admit = iso_ok && flow_ok;
+                if inner_err_seen && thresholds[r] > 0 && inflight[r] + 1 >= thresholds[r] {
                     at_cap_after_err = true;
                 }
                 match svc.poll_ready(&mut cx) {
                     Poll::Ready(Ok(())) => {}
                     _ => return Err(("poll-ready-failed".into(), format!("op {}", oi))),
                 }
-                let fut = svc.call(Request { id, res: res.clone(), outcome: *outcome });
+                let fut = svc.call(Request { id, res: names[r].clone(), outcome: *outcome });
                 let called = inner_state.lock().unwrap().calls.clone();
                 let admitted = called.last() == Some(&id) && called.len() == expected_calls.len() + 1;
                 if judged {
                     if admitted != expect_admit {
                         return Err((
                             if admitted { "called-although-rejected".into() } else { "rejected-although-capacity".into() },
-                            format!("op {} request {}: inner service {} but in-flight {} / threshold {}", oi, id, if admitted { "was called" } else { "was not called" }, inflight, case.threshold),
+                            format!(
+                                "op {} request {} on resource {}: inner service {} but in-flight {} / isolation threshold {} (0 = none), admitted so far {} / flow threshold {} (0 = none)",
+                                oi, id, r, if admitted { "was called" } else { "was not called" }, inflight[r], thresholds[r], admitted_total[r], if r == 0 { case.flow_cap } else { 0 }
+                            ),
                         ));
                     }
                 }
                 if admitted {
                     expected_calls.push(id);
-                    inflight += 1;
+                    inflight[r] += 1;
+                    admitted_total[r] += 1;
                 } else {
                     n_rej += 1;
+                    if iso_ok { n_flow_rej += 1; }
                 }
                 if called != expected_calls {
                     return Err(("inner-call-count".into(), format!("op {}: inner calls {:?}, expected {:?}", oi, called, expected_calls)));
                 }
-                live.push(Live { id, admitted, outcome: *outcome, fut });
-                check_counts(inflight, judged, &format!("after call of request {}", id))?;
+                live.push(Live { id, res: r, admitted, outcome: *outcome, fut });
+                check_counts(&inflight, judged, &format!("after call of request {}", id))?;
             }
             Op::Poll(k) => {
                 if live.is_empty() {
@@ -274,24 +334,27 @@ fn run_case(case: &Case) -> Result<(bool, Vec<&'static str>, u64), (String, Stri
                 let r = live[i].fut.as_mut().poll(&mut cx);
                 if let Poll::Ready(out) = r {
                     let l = live.remove(i);
+                    let shown = out.as_ref().map(|v| *v).map_err(|e| e.to_string());
                     if l.admitted {
-                        inflight -= 1;
+                        inflight[l.res] -= 1;
                         let want_ok = matches!(l.outcome, Outcome::ReadyOk | Outcome::PendingOk(_));
-                        match (&out, want_ok) {
+                        match (&shown, want_ok) {
                             (Ok(v), true) if *v == l.id => {}
-                            (Err(_), false) => {
+                            // the caller gets the inner service's own error
+                            (Err(m), false) if *m == format!("inner error {}", l.id) => {
                                 inner_err_seen = true;
                             }
-                            _ => return Err(("wrong-output".into(), format!("request {} ({:?}) resolved to {:?}", l.id, l.outcome, out.as_ref().map_err(|e| e.to_string())))),
+                            _ => return Err(("wrong-output".into(), format!("request {} ({:?}) resolved to {:?}", l.id, l.outcome, shown))),
                         }
                     } else {
-                        match (&out, case.fallback) {
-                            (Ok(v), true) if *v == FALLBACK_MARK => {}
-                            (Err(_), false) => {}
-                            _ => return Err(("wrong-rejection-output".into(), format!("rejected request {} resolved to {:?} (fallback configured: {})", l.id, out.as_ref().map_err(|e| e.to_string()), case.fallback))),
+                        match (&shown, case.fallback) {
+                            // the fallback's answer for exactly this request
+                            (Ok(v), true) if *v == FALLBACK_MARK + l.id => {}
+                            (Err(m), false) if !m.starts_with("inner error") => {}
+                            _ => return Err(("wrong-rejection-output".into(), format!("rejected request {} resolved to {:?} (fallback configured: {})", l.id, shown, case.fallback))),
                         }
                     }
-                    check_counts(inflight, judged, &format!("after request {} resolved ({:?})", l.id, l.outcome))?;
+                    check_counts(&inflight, judged, &format!("after request {} resolved ({:?})", l.id, l.outcome))?;
                 }
                 let called = inner_state.lock().unwrap().calls.clone();
                 if called != expected_calls {
@@ -321,24 +384,47 @@ fn run_case(case: &Case) -> Result<(bool, Vec<&'static str>, u64), (String, Stri
             if let Poll::Ready(_) = live[i].fut.as_mut().poll(&mut cx) {
                 let l = live.remove(i);
                 if l.admitted {
-                    inflight -= 1;
+                    inflight[l.res] -= 1;
                 }
             } else {
                 i += 1;
             }
         }
     }
-    check_counts(inflight, judged, "after all futures resolved")?;
+    if !live.is_empty() {
+        return Err(("future-never-resolves".into(), format!("{} futures still pending after 200 rounds of polling", live.len())));
+    }
+    check_counts(&inflight, judged, "after all futures resolved")?;
+    // completions are recorded once per admitted request (exit happened, and only once)
+    if judged {
+        for k in 0..2 {
+            if let Some(node) = stat::get_resource_node(&names[k]) {
+                use sentinel_core::base::{MetricEvent, ReadStat};
+                let done = node.sum(MetricEvent::Complete);
+                let passed = node.sum(MetricEvent::Pass);
+                if done != admitted_total[k] as u64 || passed != admitted_total[k] as u64 {
+                    return Err(("completion-count".into(), format!("resource {}: {} requests were admitted and all finished, the node shows {} passed / {} completed", k, admitted_total[k], passed, done)));
+                }
+            }
+        }
+    }
     // whatever leaked through dropped futures is released by the harness so later cases start clean
-    if let Some(node) = stat::get_resource_node(&res) {
-        while node.current_concurrency() > 0 {
-            node.decrease_concurrency();
+    for k in 0..2 {
+        if let Some(node) = stat::get_resource_node(&names[k]) {
+            while node.current_concurrency() > 0 {
+                node.decrease_concurrency();
+            }
         }
     }
     while inbound.current_concurrency() > inbound_base {
         inbound.decrease_concurrency();
     }
     let mut classes = vec![if case.server_role { "server-role" } else { "client-role" }, if case.fallback { "with-fallback" } else { "without-fallback" }];
+    classes.push(if case.via_layer { "built-by-layer" } else { "built-by-new" });
+    if case.via_clone { classes.push("cloned-service"); }
+    if used[0] && used[1] { classes.push(if case.threshold2 > 0 { "two-resources-two-rules" } else { "two-resources-one-unruled" }); }
+    if case.flow_cap > 0 { classes.push("flow-rule-too"); }
+    if n_flow_rej > 0 { classes.push("rejected-by-flow-rule"); }
     if dropped > 0 { classes.push("future-dropped-before-completion"); }
     if n_rej > 0 { classes.push("has-rejection"); }
     if inner_err_seen { classes.push("inner-error"); }
